@@ -294,8 +294,15 @@ func WideDup(w int, dupAt []int) (depths []int, names []string) {
 	// a GRANDCHILD and, later, a direct child of the wide node with the same name: two nodes
 	depths = append(depths, 2, 3, 2, 3)
 	names = append(names, "k0", "cousin", "cousin", "child-of-the-direct-cousin")
+	// a name that appears for the first time AFTER all the others, and then once more
+	depths = append(depths, 2, 3, 2, 3)
+	names = append(names, "late-new", "first-kid-of-late-new", "late-new", "second-kid-of-late-new")
 	return
 }
+
+// WideSizes are the fan-outs of the WideDup cases: around 32 / 64 / 128 / 256 and around 1024 /
+// 2048 / 4096 children of one parent.
+var WideSizes = []int{31, 32, 33, 34, 63, 64, 65, 66, 127, 128, 129, 255, 256, 257, 1023, 1024, 1025, 1100, 2050, 4100}
 
 // DeepMixed: a spine of the given depth; at every level the spine node has a leaf sibling that
 // comes before it on even levels and after it on odd levels, so that last / not-last ancestors
